@@ -298,6 +298,30 @@ def rule_propagation(ctx):
     ctx.holds('R5', 'DatasetAxes.__setitem__: old name remembered, new Axis object assigned to every variable having it')
 
 
+def rule_rename_loop(ctx, rid, fi, label, bind=None):
+    """A bulk rename must fetch every Axis object before it renames any: a store `X.axes[<old name>].name = new` inside the loop over the
+    mapping looks the next axis up *by name* after earlier renames, so swaps and chains ({x: y, y: x}) hit the axis that was just renamed."""
+    ev = run(ctx, fi, bind=bind or {}, mode='join')
+    stores = []
+    for p in ev.paths:
+        for e in p.events:
+            if e.kind == 'store_attr' and e.b == 'name' and e.loops and id(e) not in [id(x) for x in stores]:
+                stores.append(e)
+    if not stores:
+        ctx.undecide(rid, '%s: no renaming store found' % label)
+        return
+    for e in stores:
+        tgt = e.a
+        by_name_in_loop = tgt[0] == 'sub' and tgt[1][0] == 'attr' and tgt[1][2] == 'axes' and any(x[0] in ('elem', 'item') for x in T.subterms(tgt[2])) \
+            and not any(x[0] == 'idx' for x in T.subterms(tgt[2]))
+        if by_name_in_loop:
+            ctx.violated(rid, fi, 'lookup by name between renames', '%s looks each axis up by its old name inside the renaming loop (%s.name = ...): after the first rename of a swap '
+                         'or chain the next lookup finds the axis that was just renamed, so the bulk rename is silently undone or misapplied; fetch all Axis objects '
+                         'before renaming any' % (label, T.show(tgt)[:60]), node=e.node)
+            return
+    ctx.holds(rid, '%s: Axis objects fetched before any is renamed (or addressed by position)' % label)
+
+
 def rule_renames(ctx):
     ctx.rule('R6', 'renames act on the shared Axis object', 4)
     m = ctx.P.lookup(ctx.P.cls(DSQ), 'dims')
@@ -351,6 +375,8 @@ def rule_renames(ctx):
         ctx.holds('R6', 'rename_axes: all Axis objects fetched from ds.axes first, then renamed')
     else:
         ctx.violated('R6', fi, 'rename_axes', 'rename_axes must write the new name into the shared Axis objects held in ds.axes')
+    # ds[k].dims = (...) through a variable goes through AbstractHasAxes._set_dims
+    rule_rename_loop(ctx, 'R6', ctx.fn('dimarray.core.bases.AbstractHasAxes._set_dims'), '_set_dims (dims setter of arrays)')
     fi = ctx.fn(DS + 'rename_keys')
     ev = run(ctx, fi, bind={'inplace': T.CONST_TRUE}, mode='join')
     ok = False
